@@ -9,8 +9,9 @@ def thms(ns, names):
 
 REG = {
     "C01": {
-        "modules": ["VProofs.Props.C01", "VProofs.Props.Pandas"],
-        "theorems": thms("C01", ["C01_detect", "C01_pandas", "C01_pandas_model"]) + ["V.Pd.built_typeset", "V.PandasProps.C01_pandas_built"],
+        "modules": ["VProofs.Props.C01", "VProofs.Props.Pandas", "VProofs.Props.PyList"],
+        "theorems": thms("C01", ["C01_detect", "C01_pandas", "C01_pandas_model"]) + ["V.Pd.built_typeset", "V.PandasProps.C01_pandas_built",
+                                                                                     "V.PyProps.C01_list", "V.PyProps.C01_list_built"],
         "runners": ["pandas", "engine", "numpy", "list", "algebra", "frame"],
         "relevant": ["contains", "detect"],
     },
@@ -93,10 +94,10 @@ REG = {
         "partial": "the model cannot exhibit global state it does not name, nor hash-seed / process dependence: observed by the History runner",
     },
     "C11": {
-        "modules": ["VProofs.Props.C11"],
+        "modules": ["VProofs.Props.C11", "VProofs.Props.PyList"],
         "theorems": thms("C11", ["C11_sim", "C11_membership_pandas", "C11_repeat_pandas", "C11_detect_pandas",
                                  "C11_detect_repeat_pandas", "C11_infer_pandas"])
-                    + ["V.Pd.guard_accBag", "V.Pd.xform_equiBag", "V.Pd.infer_bag"],
+                    + ["V.Pd.guard_accBag", "V.Pd.xform_equiBag", "V.Pd.infer_bag", "V.PyProps.C11_membership_list", "V.PyProps.C11_detect_list"],
         "runners": ["bag", "pandas", "numpy", "list"],
         "relevant": ["contains", "detect", "guard", "infer-path"],
         "partial": "k-fold repetition is proved for membership and detect_type only (infer_type under repetition, and the numpy / list back ends, are explored by the bag and sequence runners); DtBag (pd.to_datetime parses element by element) is a hypothesis",
